@@ -195,3 +195,272 @@ Section Single.
     rewrite Hfn, Hfm. repeat split.
   Qed.
 End Single.
+
+(* ---------- any number of stored entries *)
+Definition entry := (bytes * wopts * bytes)%type.
+Definition entry_ok (e : entry) : Prop :=
+  let '(n, o, c) := e in len n <= 65535 /\ stored_opts o /\ dos_ok (o_time o) /\ len c <= ZIP64_BYTES_THR.
+
+Lemma decoded_list_nth files css pos gs : decoded_list files css pos gs ->
+  forall i f, nth_error files i = Some f -> exists dt p, nth_error gs i = Some (decoded f dt 0 p).
+Proof.
+  induction 1 as [|f cs fs css pos dt gs Hdt Hrest IH]; intros i g Hi; [destruct i; discriminate|].
+  destruct i as [|i]; cbn [nth_error] in *.
+  - injection Hi as <-. eauto.
+  - eapply IH. exact Hi.
+Qed.
+
+Lemma decoded_list_length files css pos gs : decoded_list files css pos gs -> length gs = length files.
+Proof. induction 1; cbn [length]; congruence. Qed.
+
+Section Many.
+  Variable kdf : bytes -> bytes -> N -> bytes.
+  Variable blk : bytes -> bytes -> bytes.
+  Variable mac : bytes -> bytes -> bytes.
+  Variable enc : CompressionMethod -> Z -> bytes -> bytes.
+  Variable crc : bytes -> N.
+  Hypothesis crc32 : forall x, crc x < 2 ^ 32.
+
+  Fixpoint write_entries (s : wstate) (es : list entry) : wstate * res unit :=
+    match es with
+    | [] => (s, Ok tt)
+    | (n, o, c) :: r =>
+        match start_file enc crc s n o with
+        | (s1, Ok _) => match zw_write_all s1 c with
+                        | (s2, Ok _) => write_entries s2 r
+                        | bad => bad
+                        end
+        | bad => bad
+        end
+    end.
+
+  (* a closed entry: its final record, the rendered central record, its content *)
+  Definition closed := (wfile * list bytes * bytes)%type.
+  Definition closed_ok (b : bytes) (cl : closed) : Prop :=
+    let '(f, cs, c) := cl in rendered f cs /\ laid_out crc b f c.
+
+  Lemma closed_ok_grow b x cl : closed_ok b cl -> closed_ok (b ++ x) cl.
+  Proof. destruct cl as [[f cs] c]. intros [H1 H2]. split; [exact H1|now apply laid_out_grow]. Qed.
+
+  (* the writer in the middle of an entry, with everything before it closed *)
+  Record open_inv (s : wstate) (front : bytes) (f : wfile) (d : N) (content : bytes) (cls : list closed) (name : bytes) (o : wopts) : Prop := {
+    oi_open : entry_open s front f d content (map (fun cl => fst (fst cl)) cls);
+    oi_closed : Forall (closed_ok front) cls;
+    oi_f : f = wf_set_data_start (mk_wfile name (with_perm o 420 32768) None (len front)) (len front + 30 + len name);
+    oi_ok : len name <= 65535 /\ stored_opts o /\ dos_ok (o_time o);
+    oi_comment : ws_comment s = [] }.
+
+  Lemma hdr_exists name o hs : dos_ok (o_time o) -> stored_opts o ->
+    exists hdr, local_header_chunks (mk_wfile name (with_perm o 420 32768) None hs) = Ok hdr.
+  Proof.
+    intros (Htp & d & Hd & Hd16) (Hm & Hlv & He & Hlg). unfold local_header_chunks.
+    cbn [w_time mk_wfile with_perm o_time w_extra w_large o_large]. rewrite Hd, Hlg.
+    change (len []) with 0. cbn. eexists; reflexivity.
+  Qed.
+
+  (* closing the open entry *)
+  Lemma close_entry s front f d content cls name o :
+    open_inv s front f d content cls name o -> len content <= ZIP64_BYTES_THR -> len front < 2 ^ 64 ->
+    exists s' cs,
+      finish_file enc crc s = (s', Ok tt) /\
+      let f' := wf_set_sizes f (crc content) (len content) (len content) in
+      let b := front ++ lh_bytes f d (crc content) (len content) (len content) ++ content in
+      ws_inner s' = WStorer (at_end b) /\
+      ws_files s' = map (fun cl => fst (fst cl)) (cls ++ [(f', cs, content)]) /\
+      Forall (closed_ok b) (cls ++ [(f', cs, content)]) /\
+      ws_to_extra s' = false /\ ws_raw s' = false /\ ws_comment s' = [] /\ w_name f = name.
+  Proof.
+    intros [Heo Hcl Hf (Hn & Ho & Hdos) Hcm] Hlen Hfront.
+    destruct (finish_file_stored enc crc s front f d content _ Heo Hlen (crc32 content)) as (s' & Hff & Hin' & Hfiles' & Hx' & Hraw' & Htf' & Hcm' & Hco').
+    destruct (stored_record_rendered kdf blk mac enc crc crc32 name o (len front) (len front + 30 + len name) content Hn Ho Hdos Hlen Hfront) as [cs Hcs].
+    rewrite <- Hf in Hcs.
+    assert (Hfn : w_name f = name) by (rewrite Hf; reflexivity).
+    exists s', cs. split; [exact Hff|]. cbv zeta.
+    split; [exact Hin'|]. split; [rewrite Hfiles', map_app; reflexivity|].
+    split; [|rewrite Hcm' in *; auto].
+    apply Forall_app. split.
+    - eapply Forall_impl; [|exact Hcl]. intros cl Hc. apply closed_ok_grow. exact Hc.
+    - constructor; [|constructor]. split; [exact Hcs|].
+      exists front, [], d, f. rewrite app_nil_r. split; [reflexivity|].
+      cbn [wf_set_sizes w_header_start w_name w_crc w_csize w_usize w_method w_encrypted].
+      destruct Heo as [_ _ Hhs _ _ _ _ _ _ _]. rewrite Hfn.
+      assert (Hfm : w_method f = CompressionMethod_Stored) by (rewrite Hf; cbn [wf_set_data_start mk_wfile w_method with_perm o_method]; apply Ho).
+      assert (Hfe : w_encrypted f = false).
+      { rewrite Hf. cbn [wf_set_data_start mk_wfile w_encrypted with_perm o_encrypt]. destruct Ho as (_ & _ & He & _). rewrite He. reflexivity. }
+      repeat split; auto.
+  Qed.
+
+  (* starting the next entry closes the open one; then its content is written *)
+  Lemma next_entry s front f d content cls name o n2 o2 c2 :
+    open_inv s front f d content cls name o -> len content <= ZIP64_BYTES_THR -> len front < 2 ^ 64 ->
+    entry_ok (n2, o2, c2) ->
+    exists s2 cs f2 d2,
+      start_file enc crc s n2 o2 = (fst (start_file enc crc s n2 o2), Ok tt) /\
+      zw_write_all (fst (start_file enc crc s n2 o2)) c2 = (s2, Ok tt) /\
+      let f' := wf_set_sizes f (crc content) (len content) (len content) in
+      let b := front ++ lh_bytes f d (crc content) (len content) (len content) ++ content in
+      open_inv s2 b f2 d2 c2 (cls ++ [(f', cs, content)]) n2 o2.
+  Proof.
+    intros Hoi Hlen Hfront (Hn2 & Ho2 & Hdos2 & Hlen2).
+    destruct (close_entry s front f d content cls name o Hoi Hlen Hfront) as (s' & cs & Hff & Hrest). cbv zeta in Hrest.
+    destruct Hrest as (Hin' & Hfiles' & Hcl' & Hx' & Hraw' & Hcm' & Hfn).
+    set (f' := wf_set_sizes f (crc content) (len content) (len content)) in *.
+    set (b := front ++ lh_bytes f d (crc content) (len content) (len content) ++ content) in *.
+    destruct (hdr_exists n2 o2 (len b) Hdos2 Ho2) as [hdr Hhdr].
+    destruct (start_file_stored enc crc s s' b n2 o2 hdr Hff Hin' Hx' Hraw' Hn2 Ho2 Hhdr) as (s1 & f2 & d2 & Hsf & Heo & Hf2 & Hd2 & Hcm1 & Hco1).
+    destruct (write_stored crc s1 b f2 d2 [] _ c2 Heo) as (s2 & Hw & Heo2 & Hcm2 & Hco2); [change (len []) with 0; lia|].
+    cbn [app] in Heo2.
+    exists s2, cs, f2, d2. rewrite Hsf. cbn [fst]. split; [reflexivity|]. split; [exact Hw|]. cbv zeta.
+    constructor.
+    - rewrite Hfiles' in Heo2. exact Heo2.
+    - exact Hcl'.
+    - rewrite Hf2. f_equal.
+      destruct (local_chunks_flat (mk_wfile n2 (with_perm o2 420 32768) None (len b)) hdr) as (dd & _ & Hflat);
+        [cbn [mk_wfile w_large with_perm o_large]; apply Ho2|reflexivity|exact Hhdr|].
+      rewrite Hflat.
+      change (lh_head ?g dd ++ le 4 (w_crc ?g) ++ le 4 (w_csize ?g mod 2 ^ 32) ++ le 4 (w_usize ?g mod 2 ^ 32) ++ lh_tail ?g) with (lh_bytes g dd 0 0 0).
+      rewrite len_lh_bytes. cbn [mk_wfile w_name]. lia.
+    - auto.
+    - rewrite Hcm2, Hcm1. exact Hcm'.
+  Qed.
+
+  Fixpoint layout_len (es : list entry) : N :=
+    match es with [] => 0 | (n, _, c) :: r => 30 + len n + len c + layout_len r end.
+
+  (* what has been written so far: (name, content) of every closed entry, then the open one *)
+  Definition summary (cls : list closed) (name content : bytes) : list (bytes * bytes) :=
+    map (fun cl : closed => (w_name (fst (fst cl)), snd cl)) cls ++ [(name, content)].
+
+  Lemma write_rest : forall rest s front f d content cls name o,
+    open_inv s front f d content cls name o -> len content <= ZIP64_BYTES_THR -> Forall entry_ok rest ->
+    len front + 30 + len name + len content + layout_len rest < 2 ^ 64 ->
+    exists s' front' f' d' content' cls' name' o',
+      write_entries s rest = (s', Ok tt) /\ open_inv s' front' f' d' content' cls' name' o' /\ len content' <= ZIP64_BYTES_THR /\
+      len front' + 30 + len name' + len content' = len front + 30 + len name + len content + layout_len rest /\
+      summary cls' name' content' = summary cls name content ++ map (fun e : entry => (fst (fst e), snd e)) rest.
+  Proof.
+    induction rest as [|[[n2 o2] c2] rest IH]; intros s front f d content cls name o Hoi Hlen Hok Hb.
+    - exists s, front, f, d, content, cls, name, o. cbn [write_entries map layout_len] in *. rewrite app_nil_r.
+      split; [reflexivity|]. split; [exact Hoi|]. split; [exact Hlen|]. split; [lia|reflexivity].
+    - inversion Hok as [|? ? He2 Hrest]; subst. cbn [layout_len] in Hb.
+      destruct (next_entry s front f d content cls name o n2 o2 c2 Hoi Hlen) as (s2 & cs & f2 & d2 & Hsf & Hw & Hoi2); [lia|exact He2|].
+      cbv zeta in Hoi2.
+      set (f' := wf_set_sizes f (crc content) (len content) (len content)) in *.
+      set (b := front ++ lh_bytes f d (crc content) (len content) (len content) ++ content) in *.
+      assert (Hfn : w_name f = name) by (destruct Hoi as [_ _ Hf _ _]; rewrite Hf; reflexivity).
+      assert (Hbl : len b = len front + 30 + len name + len content)
+        by (subst b; rewrite !len_app, len_lh_bytes, Hfn; lia).
+      destruct He2 as (Hn2 & Ho2 & Hdos2 & Hlen2).
+      destruct (IH s2 b f2 d2 c2 (cls ++ [(f', cs, content)]) n2 o2 Hoi2 Hlen2 Hrest) as
+        (s' & front' & f'' & d' & content' & cls' & name' & o' & Hwe & Hoi' & Hl' & Hb' & Hsum); [rewrite Hbl; lia|].
+      exists s', front', f'', d', content', cls', name', o'.
+      cbn [write_entries]. destruct (start_file enc crc s n2 o2) as [s1 r1] eqn:Es. cbn [fst] in Hsf, Hw. injection Hsf as ->.
+      rewrite Hw. split; [exact Hwe|]. split; [exact Hoi'|]. split; [exact Hl'|]. split; [cbn [layout_len]; rewrite Hb', Hbl; lia|].
+      rewrite Hsum. unfold summary. rewrite map_app. cbn [map fst snd]. subst f'. cbn [wf_set_sizes w_name]. rewrite Hfn.
+      rewrite <- !app_assoc. reflexivity.
+  Qed.
+
+  Lemma closed_rendered b (all : list closed) : Forall (closed_ok b) all ->
+    Forall2 rendered (map (fun cl : closed => fst (fst cl)) all) (map (fun cl : closed => snd (fst cl)) all).
+  Proof.
+    induction 1 as [|[[f cs] c] r [Hr _] HF IH]; cbn [map fst snd]; constructor; auto.
+  Qed.
+
+  Lemma rendered_dir_len (all : list closed) b : Forall (closed_ok b) all ->
+    len (concat (map (@concat byte) (map (fun cl : closed => snd (fst cl)) all))) <= N.of_nat (length all) * 131116.
+  Proof.
+    induction 1 as [|[[f cs] c] r [[W Hch] _] HF IH]; cbn [map concat length fst snd]; [unfold len; cbn; lia|].
+    rewrite len_app. destruct (central_chunks_flat f cs Hch) as (d & _ & Hel & Hflat).
+    rewrite Hflat, !len_app, len_central_fixed. pose proof (wc_name _ _ W). lia.
+  Qed.
+
+  (* write_then_read, any number of stored entries *)
+  Theorem stored_roundtrip n1 o1 c1 rest :
+    let es := (n1, o1, c1) :: rest in
+    Forall entry_ok es -> layout_len es + N.of_nat (length es) * 131218 < 2 ^ 64 ->
+    exists s' s3 data b dir (cls : list closed),
+      write_entries (new_writer []) es = (s', Ok tt) /\
+      finish enc crc s' = (s3, Ok data) /\
+      data = b ++ dir ++ concat (end_records (N.of_nat (length es)) (len b) (len dir) []) /\
+      map (fun cl : closed => (w_name (fst (fst cl)), snd cl)) cls = map (fun e : entry => (fst (fst e), snd e)) es /\
+      ((needs64 (N.of_nat (length es)) (len dir) (len b) = false -> no_locator_before (b ++ dir)) ->
+       exists gs,
+         let ar := {| ar_data := data; ar_files := gs; ar_offset := 0; ar_comment := [] |} in
+         open data = Ok ar /\ length gs = length es /\
+         forall i f cs c, nth_error cls i = Some (f, cs, c) ->
+           exists dt p ds cr,
+             nth_error gs i = Some (decoded f dt 0 p) /\
+             by_index_opt kdf ar (N.of_nat i) None = Ok (Some (decoded f dt 0 p, ds, cr)) /\
+             plain_inv cr /\ crc_den crc plain_den (make_stored (decoded f dt 0 p) cr) = Good c).
+  Proof.
+    intros es Hok Hbound. subst es.
+    inversion Hok as [|? ? He1 Hrest]; subst. destruct He1 as (Hn1 & Ho1 & Hdos1 & Hlen1).
+    cbn [layout_len length] in Hbound.
+    (* the first entry *)
+    assert (Hff0 : finish_file enc crc (new_writer []) = (new_writer [], Ok tt)) by reflexivity.
+    destruct (hdr_exists n1 o1 (len (@nil byte)) Hdos1 Ho1) as [hdr Hhdr].
+    destruct (start_file_stored enc crc (new_writer []) (new_writer []) [] n1 o1 hdr Hff0 eq_refl eq_refl eq_refl Hn1 Ho1 Hhdr)
+      as (s1 & f & d & Hsf & Heo & Hf & Hd & Hcm1 & Hco1).
+    destruct (write_stored crc s1 [] f d [] [] c1 Heo) as (s2 & Hw & Heo2 & Hcm2 & Hco2); [change (len []) with 0; lia|].
+    cbn [app] in Heo2.
+    assert (Hoi : open_inv s2 [] f d c1 [] n1 o1).
+    { constructor; auto.
+      - rewrite Hf. f_equal.
+        destruct (local_chunks_flat (mk_wfile n1 (with_perm o1 420 32768) None (len (@nil byte))) hdr) as (dd & _ & Hflat);
+          [cbn [mk_wfile w_large with_perm o_large]; apply Ho1|reflexivity|exact Hhdr|].
+        rewrite Hflat.
+        change (lh_head ?g dd ++ le 4 (w_crc ?g) ++ le 4 (w_csize ?g mod 2 ^ 32) ++ le 4 (w_usize ?g mod 2 ^ 32) ++ lh_tail ?g) with (lh_bytes g dd 0 0 0).
+        rewrite len_lh_bytes. cbn [mk_wfile w_name]. lia.
+      - rewrite Hcm2, Hcm1. reflexivity. }
+    destruct (write_rest rest s2 [] f d c1 [] n1 o1 Hoi Hlen1 Hrest) as
+      (s' & front' & f' & d' & content' & cls' & name' & o' & Hwe & Hoi' & Hl' & Hb' & Hsum); [change (len []) with 0; lia|].
+    (* closing the last entry *)
+    change (len []) with 0 in Hb'.
+    destruct (close_entry s' front' f' d' content' cls' name' o' Hoi' Hl') as (s'' & cs & Hff & Hrest'); [lia|]. cbv zeta in Hrest'.
+    destruct Hrest' as (Hin'' & Hfiles'' & Hcl'' & Hx'' & Hraw'' & Hcm'' & Hfn').
+    set (flast := wf_set_sizes f' (crc content') (len content') (len content')) in *.
+    set (b := front' ++ lh_bytes f' d' (crc content') (len content') (len content') ++ content') in *.
+    set (all := cls' ++ [(flast, cs, content')]) in *.
+    assert (Hbl : len b = len front' + 30 + len name' + len content') by (subst b; rewrite !len_app, len_lh_bytes, Hfn'; lia).
+    assert (HR : Forall2 rendered (ws_files s'') (map (fun cl : closed => snd (fst cl)) all))
+      by (rewrite Hfiles''; exact (closed_rendered b all Hcl'')).
+    assert (Hcomment : ws_comment s' = []) by (destruct Hoi'; assumption).
+    assert (Hclen : len (ws_comment s') <= 65535) by (rewrite Hcomment; change (len []) with 0; lia).
+    destruct (finish_ideal enc crc s' s'' b (map (fun cl : closed => snd (fst cl)) all) Hff Hin'' Hclen) as [s3 Hfin];
+      [rewrite Hcm'', Hcomment; reflexivity|apply Forall2_rendered_chunks; exact HR|].
+    set (dir := concat (map (@concat byte) (map (fun cl : closed => snd (fst cl)) all))) in *.
+    (* the summary: names and contents, in order *)
+    assert (Hall : map (fun cl : closed => (w_name (fst (fst cl)), snd cl)) all = map (fun e : entry => (fst (fst e), snd e)) ((n1, o1, c1) :: rest)).
+    { subst all. rewrite map_app. cbn [map fst snd]. subst flast. cbn [wf_set_sizes w_name]. rewrite Hfn'.
+      change (map (fun cl : closed => (w_name (fst (fst cl)), snd cl)) cls' ++ [(name', content')]) with (summary cls' name' content').
+      rewrite Hsum. reflexivity. }
+    assert (Hlenall : length all = length ((n1, o1, c1) :: rest)).
+    { apply (f_equal (@length _)) in Hall. rewrite !map_length in Hall. exact Hall. }
+    assert (Hfl : length (ws_files s'') = length ((n1, o1, c1) :: rest)) by (rewrite Hfiles'', map_length; exact Hlenall).
+    rewrite Hfl, Hcomment in Hfin.
+    exists s', s3. eexists. exists b, dir, all.
+    split. { cbn [write_entries]. rewrite Hsf, Hw. exact Hwe. }
+    split; [exact Hfin|]. split; [reflexivity|]. split; [exact Hall|].
+    intro Hloc.
+    pose proof (rendered_dir_len all b Hcl'') as Hdl. fold dir in Hdl. rewrite Hlenall in Hdl.
+    assert (Hbb : len b + len dir < 2 ^ 64) by (cbn [length] in *; lia).
+    destruct (decoded_list_exists _ _ HR (len b)) as [gs Hgs].
+    destruct (open_rendered b (ws_files s'') (map (fun cl : closed => snd (fst cl)) all) [] gs HR) as (data & Hdata & Hopen);
+      [fold dir; exact Hbb | change (len []) with 0; lia | fold dir; rewrite Hfl; exact Hloc | apply no_later_sig_empty | exact Hgs |].
+    fold dir in Hdata, Hopen. rewrite Hfl in Hdata. subst data.
+    exists gs. cbv zeta. split; [exact Hopen|]. split; [rewrite (decoded_list_length _ _ _ _ Hgs); exact Hfl|].
+    intros i fi csi ci Hnth.
+    assert (Hfi : nth_error (ws_files s'') i = Some fi).
+    { rewrite Hfiles''. exact (map_nth_error (fun cl : closed => fst (fst cl)) i all Hnth). }
+    destruct (decoded_list_nth _ _ _ _ Hgs i fi Hfi) as (dt & p & Hg).
+    assert (Hcok : closed_ok b (fi, csi, ci)).
+    { rewrite Forall_forall in Hcl''. apply Hcl''. eapply nth_error_In. exact Hnth. }
+    destruct Hcok as [_ Hlay].
+    set (ar := {| ar_data := b ++ dir ++ concat (end_records (N.of_nat (length ((n1, o1, c1) :: rest))) (len b) (len dir) []);
+                  ar_files := gs; ar_offset := 0; ar_comment := [] |}).
+    destruct (read_laid_out kdf blk mac crc crc32 ar (N.of_nat i) fi dt p ci
+                (dir ++ concat (end_records (N.of_nat (length ((n1, o1, c1) :: rest))) (len b) (len dir) [])) b)
+      as (ds & cr & Hby & Hpi & Hden); [reflexivity|exact Hlay|rewrite Nat2N.id; exact Hg|lia|].
+    exists dt, p, ds, cr. auto.
+  Qed.
+End Many.
